@@ -43,6 +43,14 @@ for d in sorted(glob.glob("seeded/C*_*")):
     rows.append((name, "detected (exit 1)" if r.returncode == 1 else f"exit {r.returncode}", engine + (" +P" if pnote and engine != "P" else ""),
                  (first[0][:110] if first else ("no longer property-breaking on the repaired tree" if not still_breaks else "")) ))
     print(rows[-1], flush=True)
+if only and os.path.exists("seeded/MATRIX.md"):
+    # partial run: keep the rows of the seeds that were not re-run
+    have = {r[0] for r in rows}
+    for line in open("seeded/MATRIX.md").read().splitlines()[2:]:
+        cells = [c.strip() for c in line.strip().strip("|").split(" | ")]
+        if len(cells) >= 4 and cells[0] not in have:
+            rows.append(tuple(cells[:4]))
+    rows.sort()
 with open("seeded/MATRIX.md", "w") as f:
     f.write("| seeded change | result of the property's quick check | engine | first violated contract |\n|---|---|---|---|\n")
     for r in rows: f.write("| " + " | ".join(r) + " |\n")
